@@ -52,6 +52,9 @@ def plan(tier, seed):
         # a rate that is not a whole number (same float arithmetic in the reference), and for DRR a packet of more than two quanta
         cfgs.append(dict(sched=kind, table=tabs[0], rate=(2500.5 if kind == "DRR" else 2.5), flows=[0, 1],
                          sizes=([1000, 4000] if kind == "DRR" else [1, 2]), N=nfull, gaps="G3", order=0, map="id"))
+        # two instances of the scheduler in one program (class-level or module-level state would couple them)
+        cfgs.append(dict(sched=kind, table=tabs[0], rate=(8000 if kind == "DRR" else 8), flows=[0, 1],
+                         sizes=([2000, 4000] if kind == "DRR" else [1, 2]), N=nfull, gaps="G3", order=0, map="id", twin=1))
         # several flows mapped onto one class
         if kind in ("WFQ", "VC", "DRR"):
             cfgs.append(dict(sched=kind, table=[[0, 2]], rate=(8000 if kind == "DRR" else 8), flows=[0, 1],
